@@ -572,6 +572,11 @@ func randomCases(c *run.Ctx, n int) {
 		}
 		r := c.Rand("random", i)
 		cs := &Case{Kind: "ext", Views: allViews, Repeat: r.Range(1, 2), Batch: pickInt(r, 1, 7, 64), Workers: r.Range(1, 4), Interleave: r.Bool()}
+		if r.Intn(3) == 0 {
+			cs.Sources = r.Range(2, 4) // several inputs: equal line numbers arrive back to back in one worker
+			cs.Workers = pickInt(r, 1, 1, 2)
+			c.Count("multi_source_cases", 1)
+		}
 		nLines := r.Range(24, 48)
 		var lines [][]byte
 		if r.Intn(7) == 0 {
